@@ -88,6 +88,13 @@ CHECKS["C18"] = ("E2-sim",
   "file status; a receiver missing metadata or any byte never reports Complete.",
   "With closure the sender may repeat its EOF while waiting. Exhaustive for <= 2 losses on the listed configurations only.",
   "DESIGN.md §5 C18")
+CHECKS["C10"] = ("E2-sim",
+  "cancel-at-every-ordinal enumeration x adaptive loss of each post-cancel datagram x blackout variants on the real daemons + proptest; trace oracle on termination, reported condition and the destination file",
+  "Both modes x closure x NAK procedure x sizes: a user Cancel at the sender or the receiver when the link sees datagram k of either direction, for every k of the baseline exchange (exhaustive), "
+  "each combined with the loss of every single datagram emitted after the cancel and with blackouts after the cancel; plus sampled cancel+random-fault scenarios. The cancelling side must be gone "
+  "within the bound, the peer too; both users see CancelReceived when nothing was lost, delivered or faulted before; the destination exists only after a reported complete delivery and then equals the source.",
+  "The 'both report the cancel condition' clause is judged only on loss-free handshakes without a prior Finished/Fault indication. Unack-mode retention of an incomplete file by an EOF(NoError) is out of scope.",
+  "DESIGN.md §5 C10")
 NOT_YET = {}
 
 def main():
